@@ -116,7 +116,10 @@ def _mentions(node, name):
 def _loop_as_comprehension(init, loop):
     """`x = []` + `for … : [for/if …:] x.append(e)`  ->  `x = [e for … if …]`, else None."""
     if not (isinstance(init, ast.Assign) and len(init.targets) == 1 and isinstance(init.targets[0], ast.Name)
-            and isinstance(init.value, ast.List) and not init.value.elts and isinstance(loop, ast.For) and not loop.orelse):
+            and isinstance(loop, ast.For) and not loop.orelse):
+        return None
+    is_dict = isinstance(init.value, ast.Dict) and not init.value.keys
+    if not (is_dict or (isinstance(init.value, ast.List) and not init.value.elts)):
         return None
     x = init.targets[0].id
     gens = []
@@ -134,6 +137,14 @@ def _loop_as_comprehension(init, loop):
             cur = cur.body[0]
         else:
             break
+    if (is_dict and isinstance(cur, ast.Assign) and len(cur.targets) == 1 and isinstance(cur.targets[0], ast.Subscript)
+            and isinstance(cur.targets[0].value, ast.Name) and cur.targets[0].value.id == x
+            and not _mentions(cur.targets[0].slice, x) and not _mentions(cur.value, x)):
+        new = ast.Assign(targets=[ast.Name(id=x, ctx=ast.Store())],
+                         value=ast.DictComp(key=cur.targets[0].slice, value=cur.value, generators=gens), lineno=init.lineno)
+        return ast.fix_missing_locations(ast.copy_location(new, init))
+    if is_dict:
+        return None
     if not (isinstance(cur, ast.Expr) and isinstance(cur.value, ast.Call) and isinstance(cur.value.func, ast.Attribute)
             and cur.value.func.attr == "append" and isinstance(cur.value.func.value, ast.Name) and cur.value.func.value.id == x
             and len(cur.value.args) == 1 and not cur.value.keywords and not _mentions(cur.value.args[0], x)):
@@ -198,7 +209,152 @@ def normalize(fn):
     fn = clean(fn)
     if hasattr(fn, "body") and isinstance(fn.body, list):
         fn.body = _norm_block(fn.body)
+        if isinstance(fn, (ast.FunctionDef, ast.AsyncFunctionDef)):
+            _inline_pure_locals(fn)
+            fn.body = _norm_block(fn.body)
     return fn
+
+
+def _subst(node, mapping, shadow=frozenset()):
+    """Scope-aware substitution of Load-names by expressions (comprehension / lambda / nested-def variables shadow)."""
+    if isinstance(node, ast.Name):
+        if isinstance(node.ctx, ast.Load) and node.id in mapping and node.id not in shadow:
+            return copy.deepcopy(mapping[node.id])
+        return node
+    if isinstance(node, (ast.ListComp, ast.SetComp, ast.GeneratorExp, ast.DictComp)):
+        node.generators[0].iter = _subst(node.generators[0].iter, mapping, shadow)
+        inner = shadow | _comp_targets(node.generators)
+        for k, g in enumerate(node.generators):
+            if k > 0:
+                g.iter = _subst(g.iter, mapping, inner)
+            g.ifs = [_subst(c, mapping, inner) for c in g.ifs]
+        for f in ("elt", "key", "value"):
+            if hasattr(node, f):
+                setattr(node, f, _subst(getattr(node, f), mapping, inner))
+        return node
+    if isinstance(node, ast.Lambda):
+        node.body = _subst(node.body, mapping, shadow | _bound_names(node))
+        return node
+    if isinstance(node, (ast.FunctionDef, ast.AsyncFunctionDef)):
+        inner = shadow | _bound_names(node)
+        node.body = [_subst(c, mapping, inner) for c in node.body]
+        node.decorator_list = [_subst(c, mapping, shadow) for c in node.decorator_list]
+        return node
+    for field, val in ast.iter_fields(node):
+        if isinstance(val, list):
+            setattr(node, field, [_subst(v, mapping, shadow) if isinstance(v, ast.AST) else v for v in val])
+        elif isinstance(val, ast.AST):
+            setattr(node, field, _subst(val, mapping, shadow))
+    return node
+
+
+def _def_dominates_uses(fn, v):
+    """Is the (single) plain assignment `v = …` a statement of some block such that every other occurrence of `v` lies in the
+    statements after it in that same block (so the definition has been executed whenever `v` is read)?"""
+    def occ(node):
+        """occurrences of the function-level name `v` (not those of a comprehension / lambda variable of the same spelling)"""
+        if isinstance(node, ast.Name):
+            return 1 if node.id == v else 0
+        if isinstance(node, (ast.ListComp, ast.SetComp, ast.GeneratorExp, ast.DictComp)):
+            k = occ(node.generators[0].iter)
+            if v in _comp_targets(node.generators):
+                return k
+            for i, g in enumerate(node.generators):
+                k += (occ(g.iter) if i > 0 else 0) + sum(occ(c) for c in g.ifs)
+            return k + sum(occ(getattr(node, f)) for f in ("elt", "key", "value") if hasattr(node, f))
+        if isinstance(node, ast.Lambda):
+            return 0 if v in _bound_names(node) else occ(node.body)
+        if isinstance(node, (ast.FunctionDef, ast.AsyncFunctionDef)) and node is not fn:
+            return 0 if v in _bound_names(node) else sum(occ(c) for c in node.body)
+        return sum(occ(c) for c in ast.iter_child_nodes(node))
+    total = occ(fn)
+
+    def find(stmts):
+        for i, st in enumerate(stmts):
+            if isinstance(st, ast.Assign) and len(st.targets) == 1 and isinstance(st.targets[0], ast.Name) and st.targets[0].id == v:
+                after = sum(occ(r) for r in stmts[i + 1:])
+                inside = occ(st.value)
+                return inside == 0 and after + 1 == total
+            for field in ("body", "orelse", "finalbody"):
+                val = getattr(st, field, None)
+                if isinstance(val, list) and val and isinstance(val[0], ast.stmt) and not isinstance(st, (ast.FunctionDef, ast.AsyncFunctionDef, ast.ClassDef)):
+                    r = find(val)
+                    if r is not None:
+                        return r
+            if isinstance(st, ast.Try):
+                for h in st.handlers:
+                    r = find(h.body)
+                    if r is not None:
+                        return r
+        return None
+    return bool(find(fn.body))
+
+
+def _inline_pure_locals(fn):
+    """Replace every local that is assigned exactly once, by a side-effect-free expression over names that never change
+    (parameters never stored to, other singly-assigned locals, globals) and that is never mutated, by its definition, and
+    delete the assignment: `perm2 = perm`, `new_perm = tuple(perm1[p] for p in perm2)` ... .  In place."""
+    for _ in range(8):
+        defs = single_assignments(fn)
+        if not defs:
+            return
+        bound = _bound_names(fn)
+        # everything stored more than once / by a non-plain store, and every mutated or partially written root
+        multi = {n for n in bound if n not in defs}
+        params = {x.arg for x in fn.args.posonlyargs + fn.args.args + fn.args.kwonlyargs}
+        stored = set()
+        for n in ast.walk(fn):
+            if isinstance(n, ast.Name) and isinstance(n.ctx, (ast.Store, ast.Del)):
+                stored.add(n.id)
+        unstable = (multi - params) | (params & stored)
+        mutated = set()
+        for st in fn.body:
+            ef = effects(st)
+            mutated |= ef.mutated
+            for w in ef.writes:
+                if len(w) > 1:
+                    mutated.add(w[0])
+        # nested functions' own writes count as well (effects() descends into them)
+        chosen = {}
+        for v, e in defs.items():
+            ef = effects(ast.Expr(value=e))
+            if ef.opaque or ef.pinned or ef.writes or v in mutated:
+                continue
+            roots = {p[0] for p in ef.reads}
+            if roots & unstable or roots & mutated or v in roots:
+                continue
+            if any(isinstance(n, (ast.Lambda, ast.Await, ast.Yield, ast.YieldFrom, ast.NamedExpr)) for n in ast.walk(e)):
+                continue
+            if not _def_dominates_uses(fn, v):
+                continue
+            # the singly-assigned locals the definition reads must be assigned textually before it
+            line = {k: d.lineno for k, d in defs.items()}
+            if any(r in line and line[r] >= e.lineno for r in roots):
+                continue
+            chosen[v] = e
+        if not chosen:
+            return
+        # one at a time keeps the substitution simple (definitions may mention each other)
+        v = sorted(chosen)[0]
+        e = chosen[v]
+
+        def drop(stmts):
+            out = []
+            for s2 in stmts:
+                if isinstance(s2, ast.Assign) and len(s2.targets) == 1 and isinstance(s2.targets[0], ast.Name) and s2.targets[0].id == v:
+                    continue
+                for field in ("body", "orelse", "finalbody"):
+                    val = getattr(s2, field, None)
+                    if isinstance(val, list) and val and isinstance(val[0], ast.stmt) and not isinstance(s2, (ast.FunctionDef, ast.AsyncFunctionDef, ast.ClassDef)):
+                        setattr(s2, field, drop(val) or [ast.copy_location(ast.Pass(), s2)])
+                if isinstance(s2, ast.Try):
+                    for h in s2.handlers:
+                        h.body = drop(h.body) or [ast.copy_location(ast.Pass(), s2)]
+                out.append(s2)
+            return out
+        fn.body = drop(fn.body) or [ast.copy_location(ast.Pass(), fn)]
+        fn.body = [_subst(s2, {v: e}) for s2 in fn.body]
+        ast.fix_missing_locations(fn)
 
 
 # --------------------------------------------------------------------------------------------------------- effects
@@ -208,6 +364,7 @@ class Effects:
         self.reads, self.writes = set(), set()
         self.opaque = False
         self.pinned = False          # never moved
+        self.mutated = set()         # root names whose object is changed in place (mutator call, attribute / item store)
 
 
 def _path(n):
@@ -262,6 +419,8 @@ def effects(stmt):
                 if p[0] not in shadow:
                     if isinstance(getattr(n, "ctx", None), ast.Store):
                         ef.writes.add(p)
+                        if len(p) > 1:
+                            ef.mutated.add(p[0])
                     else:
                         ef.reads.add(p)
                 # only the maximal path counts (`self.a.append(x)` does not read all of `self`); index expressions are visited
@@ -287,6 +446,7 @@ def effects(stmt):
                 elif p[0] not in shadow:
                     ef.writes.add(p)
                     ef.reads.add(p)
+                    ef.mutated.add(p[0])
             elif isinstance(n.func, ast.Attribute) and n.func.attr in PURE_METHODS:
                 pass
             else:
@@ -344,7 +504,7 @@ def _bound_names(fn):
             if isinstance(c, ast.Lambda):
                 continue
             if isinstance(c, (ast.ListComp, ast.SetComp, ast.GeneratorExp, ast.DictComp)):
-                visit(c.generators[0].iter)     # evaluated in the enclosing scope (walrus targets ignored)
+                visit(ast.Expr(value=c.generators[0].iter))     # evaluated in the enclosing scope (walrus targets ignored)
                 continue
             if isinstance(c, (ast.Global, ast.Nonlocal)):
                 free.update(c.names)
@@ -367,6 +527,13 @@ def _comp_targets(gens):
             if isinstance(n, ast.Name):
                 out.add(n.id)
     return out
+
+
+def _message_only(r):
+    """`raise Cls(<string literals / f-strings>)`"""
+    e = r.exc
+    return (isinstance(e, ast.Call) and not e.keywords and len(e.args) >= 1 and dotted(e.func) is not None
+            and all(isinstance(x, ast.JoinedStr) or (isinstance(x, ast.Constant) and isinstance(x.value, str)) for x in e.args))
 
 
 class _Matcher:
@@ -452,6 +619,9 @@ class _Matcher:
             return self.opt(t.type, a.type) and self.block(t.body, a.body)
         if isinstance(t, ast.keyword):
             return t.arg == a.arg and self.node(t.value, a.value)
+        if isinstance(t, ast.Raise) and _message_only(t) and _message_only(a):
+            # `raise X("text")`: the exception class and the raise site are compared, the wording of the message is not
+            return self.node(t.exc.func, a.exc.func) and self.opt(t.cause, a.cause)
         for field in t._fields:
             x, y = getattr(t, field, None), getattr(a, field, None)
             if field in ("ctx", "type_comment", "kind"):
@@ -504,8 +674,10 @@ class _Matcher:
         for t in ts:
             found = False
             for j, a in enumerate(rest):
-                if j > 0 and not (self.reorder and all(commute(a, e) for e in rest[:j])):
+                if j > 0 and not self.reorder:
                     break
+                if j > 0 and not all(commute(a, e) for e in rest[:j]):
+                    continue        # this statement cannot be moved to the front; a later one may
                 snap = self.snapshot()
                 if self.node(t, a):
                     del rest[j]
@@ -617,14 +789,14 @@ def single_assignments(fn):
                 continue
             if isinstance(c, ast.Assign) and len(c.targets) == 1 and isinstance(c.targets[0], ast.Name):
                 stores.setdefault(c.targets[0].id, []).append(c.value)
-                visit(c.value)
+                visit(ast.Expr(value=c.value))      # (wrapped, so that a comprehension on the right-hand side is seen as one)
                 continue
             if isinstance(c, ast.Name) and isinstance(c.ctx, (ast.Store, ast.Del)):
                 stores.setdefault(c.id, []).append(None)
             if isinstance(c, ast.AugAssign) and isinstance(c.target, ast.Name):
                 stores.setdefault(c.target.id, []).append(None)
             if isinstance(c, (ast.ListComp, ast.SetComp, ast.GeneratorExp, ast.DictComp)):
-                visit(c.generators[0].iter)
+                visit(ast.Expr(value=c.generators[0].iter))
                 continue
             visit(c)
     for s in fn.body:
